@@ -44,8 +44,10 @@ CLAIMED = {
             "run the five kernels are re-read from the source, checked lane-safe and equal to the dibit reference on all 65536 "
             "lane pairs inside the kernel, and lifted through the horizontal sums and chunk loops.  Header parts: complete "
             "enumerations (12 configurations x 65536 pairs).",
-            "x86 vector code modelled per 32-bit granule; wrappers (loads, loops, horizontal sums) hand-modelled and tied by the "
-            "per-backend hook suite DIST-BODY; little-endian from_ne_bytes; aarch64/wasm/portable-SIMD backends not compiled here"),
+            "x86 vector code modelled per 32-bit granule; the distance_32/64 wrappers are modelled with the source's own shuffle "
+            "immediates, extracted lanes and chunk counts (regenerated each run) and proved to sum every lane; loads and loop "
+            "structure hand-modelled, tied by the per-backend hook suite DIST-BODY; little-endian from_ne_bytes; "
+            "aarch64/wasm/portable-SIMD backends not compiled here"),
     "C07": ("PARTIAL.  HEADLINE config_independent: two configurations agreeing on parser strictness give identical results for "
             "parsing, formatting, generation and comparison on every input (hex tables full/half/quarter/min and hex-simd, 256-slot "
             "or low-memory buckets, Pearson double table, length/Q-ratio distance tables, clz-narrowed or whole-table length search, "
